@@ -387,6 +387,11 @@ def run(ctx):
         c2s(ctx, known, smfields, 160, 50, 150)
     else:
         c2s(ctx, known, smfields, 1600, 50, 500)
+    # whole sessions (load / create, key and attribute edits, chart edits, save, re-open) against System.tla;
+    # this check judges the rejections at edit events (the others belong to C04 / C16)
+    from . import system_common as sysc
+    sessions, verdict = sysc.run_sessions(ctx, 150 if ctx.quick else 3000, ctx.seed + 18)
+    sysc.judge(ctx, "C18", sessions, verdict, sysc.EDIT_OPS, "attribute / key views")
     ctx.exhaustive = True
     ctx.rule = ("S2C: every distinct transition (source mapping, operation) of the bounded Object model "
                 "for 12 kind x property configurations, replayed on the real object along a shortest "
